@@ -596,14 +596,15 @@ def corr_atoms(ck, rng, mod, lay):
     pair_cases, pair_meta = [], []
     by_query = {}
     n_mismatch_inrange = 0
-    n_field_pairs = sum(1 for _ in aspecs) * 0
-    budget_rand = 4000 if ck.tier == 'quick' else 60000
+    budget_rand = 2500 if ck.tier == 'quick' else 60000
     p_rand = budget_rand / (len(qatoms) * len(aspecs))
 
     def paired(qs, qfields, sa, fa):
         """same varied field on both sides (the grid of that field); isotopes only within one element"""
         if 'iso' in fa:
             return qs.get('kind', 'elem') == 'elem' and qs.get('num', 6) == sa['num'] and qfields <= {'num', 'iso'}
+        if qs.get('kind', 'elem') in ('any', 'list') and fa and fa <= {'chg', 'rad'}:
+            return True          # every AnyElement / ListElement against the charge x radical grid
         if not qfields or qfields == {'num'} or qfields == {'nums'}:
             return fa == {'num'}
         return bool(fa) and fa != {'num'} and len(fa) <= 2 and fa >= (qfields - {'num', 'nums'}) and bool(qfields - {'num', 'nums'})
@@ -662,7 +663,8 @@ def corr_atoms(ck, rng, mod, lay):
         qfields = {k for k in qs if k != 'kind' and qs[k] is not None}
         for i, am, ambuf in amols:
             nums = list(am._atoms)
-            want = [j for j in range(len(nums) // 2) if paired(qs, qfields, aspecs[i + j], field_of_a[i + j])]
+            want = [j for j in range(len(nums) // 2) if paired(qs, qfields, aspecs[i + j], field_of_a[i + j]) and
+                    (ck.tier != 'quick' or field_of_a[i + j] != {'num'} or (i + j + qi) % 3 == 0 or aspecs[i + j]['num'] == qs.get('num'))]
             if not want:
                 continue
             scope = [0] * len(nums)
@@ -732,6 +734,7 @@ def corr_atoms(ck, rng, mod, lay):
               ok2 and not failing2, 'correspondence', log2 or str([(qatoms[q_][0], aspecs[a_]) for q_, a_ in bad_pairs[:5]]))
     n_pairs = sum(len(v) for v in by_query.values()) + sum(len(v) for v in by_query_next.values())
     ck.extra['correspondence_cases_atoms'] = len(cases) + n_pairs
+    ck.extra['atom_pairs_in_range_mismatches'] = n_mismatch_inrange
     if pair_cases:
         ck.sample({'model_call': pair_cases[0][:300], 'query_atom': qterms[pair_meta[0]]})
     bad = []
@@ -845,7 +848,7 @@ def corr_pairs(ck, rng, mod, lay):
     mismatches = []
     n_pairs = n_oracle = 0
     per_mol = 5 if ck.tier == 'quick' else 14
-    p_hit, p_empty = (.12, .01) if ck.tier == 'quick' else (1, .3)
+    p_hit, p_empty = (.09, .008) if ck.tier == 'quick' else (1, .3)
     sb = synth_bond_mol()
     mols.append(('synthetic-bonds', 'synthetic bond fragments', sb))
     bond_queries = synth_bond_queries()
@@ -960,6 +963,13 @@ def check_layout_mol(ck, m, dec, text):
 
 def report_pair(ck, qtext, text, q, m, what, kw=None):
     fast, slow = both_paths(q, m, **(kw or {}))
+    if kw is None and not isinstance(fast, str) and as_set(fast) == as_set(slow):
+        # found at the level of one component / scope call: show it on the public API without the automorphism filter if it shows there
+        f2, s2 = both_paths(q, m, automorphism_filter=False)
+        if isinstance(f2, str) or as_set(f2) != as_set(s2):
+            fast, slow, kw = f2, s2, {'automorphism_filter': False}
+        else:
+            what += ' (the public API call hides it: same result sets there)'
     key = f'stack-overflow:stack_index' if isinstance(fast, str) and 'stack_index' in fast and 'outside the allocation' in fast \
         else f'pair-mismatch:{qtext}:{text}'
     ck.counterexample(key, f'accelerated and reference matcher disagree: {what}', {'query': qtext, 'molecule': text, 'kwargs': kw or {}},
@@ -967,7 +977,7 @@ def report_pair(ck, qtext, text, q, m, what, kw=None):
                       {'reference': sorted(map(sorted, (d.items() for d in slow)))[:5]}, 'q.get_mapping(m) vs q.get_mapping(m, _cython=False)',
                       replay_py=(REPLAY_PRE + f'q = smarts({qtext!r}); m = smiles({text!r}); '
                                  f'print(list(q.get_mapping(m, **{kw or {}!r}))); print(list(q.get_mapping(m, _cython=False, **{kw or {}!r})))')
-                      if not qtext.startswith('fragment') and '(' not in text[:0] else None)
+                      if not qtext.startswith('fragment') and not text.startswith('synthetic') else None)
 
 
 # ---------------------------------------------------------------------------------------------------------
